@@ -68,6 +68,20 @@ type BigParams struct {
 	K int
 }
 
+// HugeParams turns one plan of an interleave case into the rare "huge container" class: one sequence (and optionally
+// one check group) with hundreds to more than a thousand actions (store.Inflate).
+type HugeParams struct {
+	// Plan is the index of the plan in Plans.
+	Plan int
+	// SeqActions is the number of actions of the plan's first sequence.
+	SeqActions int
+	// ChecksActions, when > 0, is the number of actions of the plan's post-check group.
+	ChecksActions int
+}
+
+// hugeSizes sit around the boundaries at which an implementation may start to batch its statements.
+var hugeSizes = []int{499, 500, 501, 502, 503, 750, 999, 1000, 1001, 1002, 1003, 1203}
+
 // BatchParams describes the cosmos batch-fault experiment.
 type BatchParams struct {
 	Seed    uint64
@@ -93,6 +107,7 @@ type AtomCase struct {
 	// interleave
 	Plans []store.PlanSpec `json:",omitempty"`
 	Steps []Step           `json:",omitempty"`
+	Huge  *HugeParams      `json:",omitempty"`
 	// kill
 	Big *BigParams `json:",omitempty"`
 	// batch
@@ -177,6 +192,42 @@ func genAtomCase(t *rapid.T) AtomCase {
 				i := creatable[rapid.IntRange(0, len(creatable)-1).Draw(t, "newplan")]
 				state[i] = 1
 				c.Steps = append(c.Steps, Step{Kind: "create", Plan: i})
+			}
+		}
+		// about one interleave case in twenty (1% of all cases): one plan that gets created AND deleted carries a huge
+		// container; sqlite arms only (a thousand documents per plan make the cosmos fake too slow for the quick tier)
+		if store.Uniform(t, 20, "huge") == 0 {
+			victim := -1
+			for i, st := range state {
+				if st == 2 {
+					victim = i
+					break
+				}
+			}
+			if victim < 0 {
+				for i, st := range state {
+					if st == 1 {
+						victim = i
+						c.Steps = append(c.Steps, Step{Kind: "delete", Plan: i})
+						break
+					}
+				}
+			}
+			if victim >= 0 {
+				h := &HugeParams{Plan: victim}
+				switch rapid.IntRange(0, 3).Draw(t, "hugewhere") {
+				case 0, 1:
+					h.SeqActions = rapid.SampledFrom(hugeSizes).Draw(t, "hugeseq")
+				case 2:
+					h.ChecksActions = rapid.SampledFrom(hugeSizes).Draw(t, "hugechecks")
+				default:
+					h.SeqActions = rapid.SampledFrom(hugeSizes).Draw(t, "hugeseq")
+					h.ChecksActions = rapid.SampledFrom(hugeSizes).Draw(t, "hugechecks")
+				}
+				c.Huge = h
+				if !store.IsSqlite(c.Arm) {
+					c.Arm = store.ArmSqliteMem
+				}
 			}
 		}
 	case "batch":
@@ -561,6 +612,16 @@ func (r *c14run) interleave(c AtomCase) {
 			continue
 		}
 		spec := c.Plans[st.Plan]
+		if c.Huge != nil && c.Huge.Plan == st.Plan {
+			spec = store.Inflate(spec, c.Huge.SeqActions, c.Huge.ChecksActions)
+			res.Label("huge_container")
+			if st.Kind == "delete" {
+				res.Label("huge_container_deleted")
+				if c.Huge.SeqActions > 500 || c.Huge.ChecksActions > 500 {
+					res.Label("huge_container_over_500_deleted")
+				}
+			}
+		}
 		var before store.Rows
 		if h.Sqlite != nil {
 			var cerr error
